@@ -263,7 +263,7 @@ func (s *Splice) StuffingRange() (int, int) {
 // section byte for byte: real command length and no foreign descriptor after
 // a segmentation descriptor.
 func (s *Splice) Canonical() bool {
-	if s.UnknownLen {
+	if s.UnknownLen || s.Stuffing != 0 {
 		return false
 	}
 	seenSeg := false
